@@ -200,8 +200,9 @@ theorem brier_integral_fair_eq_crpsEns_fair {xs : List Rat} (hx : 2 ≤ xs.lengt
   rw [brier_integral_fair_eq_crps_fair hx, crpsEns_fair_eq_integral_sub_offset hx]
 
 /-
-  ◇ stretch, not proved here (carried by the oracle in exact arithmetic against `Spec.twIntegral`):
-  theorem tw_eq_weighted_integral_stmt … : (tw-variant).total = Fl.fin (twIntegral a? b? xs y)
+  Each threshold-weighted value INDIVIDUALLY equals the weighted integral (formerly the open `tw_eq_weighted_integral_stmt`):
+  proved in Props/C06Tw.lean — `tw_ecdf_eq_weighted_integral`, `tail_upper/tail_lower/interval_ecdf_eq_weighted_integral`,
+  the 'fair' variants, NaN members, per-case thresholds — and as Lebesgue integrals in Props/C06TwBridge.lean.
 -/
 
 end SV.Props.C06
